@@ -13,7 +13,7 @@ import ast
 from ..model import src
 from ..report import Report, key_of
 from ..terms import NONE_T, dag_nodes, has_opaque, is_stringy, pretty
-from .common import TRUSTED_BASE, where
+from .common import subst_single_assign, TRUSTED_BASE, where
 from .keyterm import KeyTerms, all_conj, branches, walk_guarded
 
 SCALAR_TYPES = {'pathlib.Path', 'Path', 'str', 'int', 'float', 'bool'}
@@ -227,6 +227,19 @@ def run(A, R: Report, thorough: bool):
         skips = {'ignored names': ignored, 'IgnoreForPersistence values': 'IgnoreForPersistence' in gtxt, 'default-valued args': '.default' in gtxt}
         missing = [k for k, v in skips.items() if not v]
         R.check(not missing, 'R02.4', 'AutoParameterObject.repr', key_of('apo-skips', missing), 'ignored / IgnoreForPersistence / default-valued arguments skipped', f'AutoParameterObject.repr no longer skips {missing}', where=where(K.f_apo))
+    # the stored constructor argument is read from `self._<arg>` first, `self.<arg>` only as a fallback (a public attribute of
+    # that name may be a derived view of the argument)
+    fa_nodes = [n for n in A.typer.own_nodes(K.f_apo) if isinstance(n, ast.Call) and src(n.func) == 'hasattr' and len(n.args) == 2 and src(n.args[0]) == 'self']
+    cfga = A.cfg(K.f_apo)
+    priv = [n for n in fa_nodes if isinstance(n.args[1], ast.BinOp) or "'_'" in src(n.args[1]) or src(subst_single_assign(A, K.f_apo, n.args[1])).startswith(("'_' +", '"_" +', "f'_", 'f"_'))]
+    pub = [n for n in fa_nodes if n not in priv]
+    if priv and pub:
+        pn = [cn.id for n in priv for cn in cfga.nodes.values() if cn.kind == 'test' and cn.ast is n]
+        un = [cn.id for n in pub for cn in cfga.nodes.values() if cn.kind == 'test' and cn.ast is n]
+        first_private = bool(pn) and bool(un) and all(any(cfga.dominates(a_, b_) for a_ in pn) for b_ in un)
+        R.check(first_private, 'R02.4', 'AutoParameterObject.repr: stored argument', key_of('private-first', first_private), '`self._<arg>` is consulted before `self.<arg>`',
+                'the public attribute `self.<arg>` is consulted before the stored `self._<arg>`: an object that exposes a derived view under the argument\'s name (a Path built from a placeholder string, a frozenset) puts the derived, environment-dependent value into the key',
+                where=where(K.f_apo))
     fv = K.f_apo.cls.lookup('ignore_persistence_args')
     R.check(fv is not None and "'verbose'" in src(fv.node), 'R02.4', 'AutoParameterObject.ignore_persistence_args', key_of('ignored-default'), 'verbose/debug ignored by default', 'default ignored arguments changed', where=where(fv) if fv else None)
 
